@@ -3,6 +3,7 @@ import Ivg.Lemmas.Gen32x
 import Ivg.Gen.Tie.GenerateErrors
 import Ivg.Gen.Tie.GeneratorFields
 import Ivg.Gen.Tie.Code.RenderRegs
+import Ivg.Gen.Tie.Code.GenGrad
 import Ivg.Obligations
 /-!
 # C19 — the generator's gradient helpers
@@ -403,4 +404,14 @@ end Ivg.Props.C19
   Ivg.Gen.Tie.renderer_SetNReg_code_tie,
   Ivg.Gen.Tie.positiveInfinity_code_tie,
   Ivg.Gen.Tie.renderer_Reset_code_tie,
-  Ivg.Gen.Tie.renderer_Reset_code_tie_frame]
+  Ivg.Gen.Tie.renderer_Reset_code_tie_frame,
+  -- regenerated code (translator) = model, for all inputs: Generator.SetGradient and the three geometric helpers (matrix in float32 / float64 sqrt, registers written, errors, selectors restored), a colour's RGBA() a pure function of the value
+  Ivg.Gen.Tie.setGradient_code_tie,
+  Ivg.Gen.Tie.setGradient_fixed,
+  Ivg.Gen.Tie.setGradient_selectors_restored,
+  Ivg.Gen.Tie.setLinearGradient_code_tie,
+  Ivg.Gen.Tie.setCircularGradient_code_tie,
+  Ivg.Gen.Tie.setEllipticalGradient_code_tie,
+  Ivg.Gen.Tie.setLinearGradient_model_tie,
+  Ivg.Gen.Tie.setCircularGradient_model_tie,
+  Ivg.Gen.Tie.setEllipticalGradient_model_tie]
